@@ -11,11 +11,15 @@ only directly in a `% for` of the same scope, no `<%def>`-only control suites). 
   * wrappers get the pattern  caller.body() - call of another def (plain / buffered / FILTER-ONLY / decorated /
     cached) - caller.body()  planted, call bodies get a variable read and a `caller` use planted, calls nest in
     call bodies up to `max_call_depth`;
-  * flags are drawn from profiles so that filter-only, buffered, decorated defs are all frequent.
+  * flags are drawn from profiles so that filter-only, buffered, decorated defs are all frequent;
+  * a quarter of the templates get a block planted at the top of the template body (named half of the time): the
+    weighted choice of constructs puts most blocks deeper, where they are anonymous.
 
-`features(bodies)` finds the code-generation quirks recorded for this property (each is a *feature* of the tree);
-`sanitize(bodies, allow)` neutralises those whose knob is off, so that the main streams stay clear of them and
-a dedicated stream per quirk finds it on its own.
+`features(bodies)` finds the code-generation quirks of this property (each is a *feature* of the tree);
+`sanitize(bodies, allow)` neutralises those whose knob is off, so that the main streams stay clear of the RECORDED
+ones and a dedicated stream per quirk finds it on its own; the features in `REPAIRED` are never neutralised (their
+streams are regression detectors).  `refinement_constructs(bodies)` counts the constructs the Lean refinement covers
+beyond plain defs and calls (blocks, includes, defs of a <%call> below control lines / in nested <%call>s, cached defs).
 """
 from __future__ import annotations
 
